@@ -113,6 +113,31 @@ CHECKS["C18"] = {
     ],
 }
 
+CHECKS["C20"] = {
+    "pkg": "./checks/c20",
+    "level": "exploration",
+    "rule": "cache: rapid state machines on network.BlockCache and network.ConfirmCache against sorted-multimap models (Add below / between / above / at existing heights, several blocks per height, Iterate with removal, Clear, Remove; "
+            "Push / Pop / Clear / Size incl. the 10240-height overflow): size, first height, ascending iteration without loss or duplication. non-trivial = an insert between two cached heights or an Iterate that removed. "
+            "sync: a valid segment of 3..7 blocks (2..5 deputies, generated transactions, a generated subset of deputies confirming each block) is delivered to the REAL ProtocolManager of a real node by 1..2 scripted p2p.IPeer "
+            "connections as BlocksMsg (single or batches of 2..3, possibly reversed) and ConfirmMsg messages in a generated permutation with 0..4 duplicates; the harness owns the schedule at message granularity "
+            "(the next message is sent once no delivered block is in transit from the cache into the chain). Oracle: after delivery the node's current and stable block hashes equal those of a node that got block 1, its confirms, block 2, ... in order; "
+            "a difference is a verdict only once current/stable/cache sizes have not changed for 4 s (8 timer periods); still changing after 30 s = inconclusive. non-trivial = a block delivered after a block at least two heights above it, or a confirm delivered before its block. "
+            "txbatch: 1..4 TxsMsg batches of 1..8 transactions drawn with repetition from 1..10 valid transactions (transfers, creations, boxes; wall-clock expiries) and 0..4 decoys (expired, too far ahead, other chain id), via 1..2 peers; "
+            "afterwards the pool holds every valid delivered transaction exactly once and nothing else (verdict after 3 s without change). non-trivial = a batch of >= 2.",
+    "level_text": "Model-based state machines for the two caches, and generated delivery schedules driven through the real protocol manager and chain with a reference node as oracle; exploration bounded by segment length, duplicates and batch sizes.",
+    "level_note": "The harness owns the schedule at message granularity only: it waits until cached blocks that became insertable have been inserted before it sends the next message, so the product's own race between the cache timer's asynchronous insert "
+                  "and a confirm arriving in that window is not explored. Scripted peers are passive (they do not answer block requests), so convergence is due to the delivered messages alone. Forks and invalid blocks are out of the statement.",
+    "technique": "rapid stateful model-based testing + generated message schedules against a reference node (differential)",
+    "assumptions": ["the receiving node is not a deputy (it emits no confirms of its own)", "transaction batches use wall-clock expiries at least 120 s away from both window ends"],
+    "units": [
+        {"name": "blockcache", "test": "TestC20BlockCache", "quick": {"checks": 3000, "shards": 2, "timeout": 600}, "thorough": {"checks": 60000, "shards": 4, "timeout": 3000}},
+        {"name": "blockcache-overflow", "test": "TestC20BlockCacheOverflow", "quick": {"checks": 3, "shards": 1, "timeout": 600}, "thorough": {"checks": 30, "shards": 2, "timeout": 3000}},
+        {"name": "confirmcache", "test": "TestC20ConfirmCache", "quick": {"checks": 3000, "shards": 2, "timeout": 600}, "thorough": {"checks": 60000, "shards": 4, "timeout": 3000}},
+        {"name": "sync", "test": "TestC20Sync", "quick": {"checks": 12, "shards": 8, "timeout": 900}, "thorough": {"checks": 250, "shards": 16, "timeout": 3400}},
+        {"name": "txbatch", "test": "TestC20TxBatch", "quick": {"checks": 150, "shards": 4, "timeout": 900}, "thorough": {"checks": 4000, "shards": 8, "timeout": 3000}},
+    ],
+}
+
 CHECKS["C07"] = {
     "pkg": "./checks/c07",
     "level": "exploration",
